@@ -11,6 +11,7 @@ import PlatypusModel.Model.Run
 import PlatypusModel.Model.Survival
 import PlatypusModel.Model.Machine
 import PlatypusModel.Model.Parallel
+import PlatypusModel.Model.Indicators
 open Wire Platypus
 
 namespace Ops
@@ -348,8 +349,52 @@ def opsParallel (op : String) : Option (P String) :=
       pure ("g " ++ " ".intercalate ((fileResults jobs).flatMap fun (a, ps) => ps.map fun (p, rs) => s!"{a}/{p}:{showIds rs}"))
   | _ => none
 
+def isolF : P (ISol Float) := do let cv ← flt; let o ← list flt; pure { objs := o, cv := cv }
+def isolQ : P (ISol Rat) := do let cv ← rat; let o ← list rat; pure { objs := o, cv := cv }
+
+def opsFloat : NumOps Float :=
+  { sum := pySumF, sqrt := Float.sqrt, pow := Float.pow, eps := EPSILON, inf := INF }
+def opsRat : NumOps Rat :=
+  { sum := fun l => l.foldl (· + ·) 0, sqrt := id, pow := fun x _ => x, eps := mkRat 1 4503599627370496, inf := 0 }
+
+def showIErr : IErr → String
+  | .emptyRange => "err:platypus" | .noFeasible => "err:refset" | .zerodiv => "err:zerodiv" | .index => "err:index"
+
+def showEF (r : Except IErr Float) : String := match r with | .ok v => showFlt v | .error e => showIErr e
+def showEQ (r : Except IErr Rat) : String := match r with | .ok v => showRat v | .error e => showIErr e
+
+def opsIndicators (op : String) : Option (P String) :=
+  match op with
+  | "hvF" => some do
+      let fixed ← bool; let dirs ← list bool; let mn ← list flt; let mx ← list flt; let set ← list isolF
+      pure (showEF (hypervolume EPSILON fixed dirs mn mx set))
+  | "hvQ" => some do
+      let fixed ← bool; let dirs ← list bool; let mn ← list rat; let mx ← list rat; let set ← list isolQ
+      pure (showEQ (hypervolume opsRat.eps fixed dirs mn mx set))
+  | "hvrefF" => some do
+      let fixed ← bool; let dirs ← list bool; let ref ← list isolF; let set ← list isolF
+      pure (showEF (do
+        let ((mn, mx), _) ← refNormalize opsFloat dirs.length ref
+        hypervolume EPSILON fixed dirs mn mx set))
+  | "gdF" => some do
+      let nobjs ← nat; let d ← flt; let ref ← list isolF; let set ← list isolF
+      pure (showEF (generationalDistance opsFloat nobjs d ref set))
+  | "igdF" => some do
+      let nobjs ← nat; let d ← flt; let ref ← list isolF; let set ← list isolF
+      pure (showEF (invertedGenerationalDistance opsFloat nobjs d ref set))
+  | "epsiF" => some do
+      let fixed ← bool; let dirs ← list bool; let ref ← list isolF; let set ← list isolF
+      pure (showEF (epsilonIndicator opsFloat fixed dirs dirs.length ref set))
+  | "epsiQ" => some do
+      let fixed ← bool; let dirs ← list bool; let ref ← list isolQ; let set ← list isolQ
+      pure (showEQ (epsilonIndicator opsRat fixed dirs dirs.length ref set))
+  | "spacingF" => some do
+      let set ← list isolF
+      pure (showFlt (spacing opsFloat set))
+  | _ => none
+
 def dispatch (op : String) (args : List String) : Except String String :=
-  match (opsGray op <|> opsDominance op <|> opsConstraint op <|> opsEps op <|> opsSorting op <|> opsGrid op <|> opsRun op <|> opsSurvival op <|> opsMachine op <|> OpsOperators.opsOperators op <|> opsParallel op) with
+  match (opsGray op <|> opsDominance op <|> opsConstraint op <|> opsEps op <|> opsSorting op <|> opsGrid op <|> opsRun op <|> opsSurvival op <|> opsMachine op <|> OpsOperators.opsOperators op <|> opsParallel op <|> opsIndicators op) with
   | some p => Wire.run p args
   | none => .error "bad-op"
 
